@@ -172,6 +172,9 @@ fn run_generic(tier: &str, which: &'static str, rec: &Recorder) -> RunOutput {
         if f.walpha.starts_with("w0") {
             continue; // positive weights only
         }
+        if which == "C06" && f.walpha == "whuge" {
+            continue; // values around 1e-19: the comparison tolerance is absolute below 1
+        }
         let m = modes(&f);
         for_each_graph(&f, seed, deadline, &stats, |b, c| if which == "C05" { check_betweenness(b, rec, c, &m) } else { check_closeness(b, rec, c, &m) });
     }
